@@ -272,22 +272,44 @@ class Lax(HasTraits):
     ll = List(List())
 
 
+class Node(HasTraits):
+    """named by forward reference in Strict.ln / Strict.sn (resolved on first use)"""
+
+
 class Strict(HasTraits):
     l = List(Int, maxlen=4)
     d = Dict(Str, Int)
     s = Set(Int)
     ll = List(List(Int, maxlen=2), maxlen=3)
     dl = Dict(Str, List(Int, maxlen=2))
+    # container traits as alternatives of Union / Either, the coercing variants, and nested containers of a class named by
+    # forward reference (the inner definition switches to its fast validator when the name is first resolved)
+    ul = tt.Union(None, List(Int, maxlen=4))
+    el = tt.Either(None, List(Int, maxlen=4))
+    ud = tt.Union(Int, Dict(Str, Int))
+    cl = tt.CList(Int, maxlen=4)
+    cs = tt.CSet(Int)
+    ln = List(List(tt.Instance("Node")), maxlen=3)
+    sn = List(Set(tt.Instance("Node")), maxlen=3)
 
 
+_N = [Node(), Node(), Node()]
 INITIAL = {"l": lambda: [1, 2], "d": lambda: {"a": 1}, "s": lambda: {1, 2}, "ll": lambda: [[1], [2, 3]],
-           "dl": lambda: {"a": [1], "b": [2, 3]}}
+           "dl": lambda: {"a": [1], "b": [2, 3]},
+           "ul": lambda: [1, 2], "el": lambda: [1, 2], "ud": lambda: {"a": 1}, "cl": lambda: [1, 2], "cs": lambda: {1, 2},
+           "ln": lambda: [[_N[0]], [_N[1], None]], "sn": lambda: [{_N[0]}, {_N[1], _N[2]}]}
+LIKE = {"ul": "l", "el": "l", "cl": "l", "ud": "d", "cs": "s"}
 SOURCES = ["self", "copy", "deepcopy", "pickle", "other-owner", "lax-owner", "inner", "plain"]
 
 
 def _valid_value(name, v):
     import traits.trait_dict_object as tdo_
     import traits.trait_set_object as tso_
+    if name in ("ln", "sn"):
+        icls = tlo.TraitListObject if name == "ln" else tso_.TraitSetObject
+        return isinstance(v, tlo.TraitListObject) and len(v) <= 3 and all(
+            isinstance(i, icls) and all(x is None or isinstance(x, Node) for x in i) for i in v)
+    name = LIKE.get(name, name)
     if name == "l":
         return isinstance(v, tlo.TraitListObject) and len(v) <= 4 and all(type(x) is int for x in v)
     if name == "d":
@@ -303,6 +325,11 @@ def _valid_value(name, v):
 def _add_invalid(name, c, via_base):
     """put an item that is invalid for Strict.<name> into container c (via_base: through the built-in base class method, i.e.
     behind the back of any validation - only ever done to detached copies)"""
+    if name in ("ln", "sn"):
+        # a Node where a row (a list / set of Nodes) belongs
+        (list.append if via_base else type(c).append)(c, Node())
+        return
+    name = LIKE.get(name, name)
     if name in ("l",):
         (list.append if via_base else type(c).append)(c, "bad")
     elif name == "d":
@@ -320,7 +347,11 @@ def assign_harness(name):
     import pickle as _pickle
 
     def harness(ex):
-        o = Strict(**{name: INITIAL[name]()})
+        try:
+            o = Strict(**{name: INITIAL[name]()})
+        except TraitError:
+            ex.check(False, "a valid container value is accepted")
+            return {"initial": "rejected"}
         log = []
         o.on_trait_change(lambda: log.append("items"), name + "_items")
         src_kind = SOURCES[ex.choice("source", len(SOURCES))]
@@ -337,7 +368,7 @@ def assign_harness(name):
         elif src_kind == "other-owner":
             src = getattr(Strict(**{name: INITIAL[name]()}), name)
         elif src_kind == "lax-owner":
-            if name == "dl":
+            if name not in ("l", "d", "s", "ll"):
                 return {"skipped": True}
             lax = Lax(**{name: INITIAL[name]()})
             src = getattr(lax, name)
@@ -376,6 +407,28 @@ def assign_harness(name):
         except TraitError:
             exc2 = "TraitError"
         ex.check(exc2 == "TraitError" and _valid_value(name, getattr(o, name)), "the stored value still rejects an invalid item")
+        if name in ("ln", "sn") and len(now):
+            inner = now[0]
+            exc3 = None
+            try:
+                (inner.append if name == "ln" else inner.add)("bad")
+            except TraitError:
+                exc3 = "TraitError"
+            except AttributeError:
+                return {"source": src_kind, "exc": exc, "smuggled": smuggled}      # not a container: already reported above
+            ex.check(exc3 == "TraitError", "... and so do its inner containers")
+            ok = None
+            try:
+                (inner.append if name == "ln" else inner.add)(Node())
+            except TraitError:
+                ok = "TraitError"
+            ex.check(ok is None, "... which still accept a valid item")
+            ok2 = None
+            try:
+                now.append([Node()] if name == "ln" else {Node()}) if len(now) < 3 else None
+            except TraitError:
+                ok2 = "TraitError"
+            ex.check(ok2 is None, "the stored value still accepts a valid row")
         if name in ("ll", "dl") and len(now):
             inner = now[0] if name == "ll" else list(now.values())[0]
             if not isinstance(inner, list):
